@@ -1564,12 +1564,14 @@ def rule_r8(chk, p, t):
     ae = p.func("resonaate.dynamics.celestial.Celestial._applyEvents")
 
     def f2():
-        adds = [n for n in walk_no_nested(ae.node) if isinstance(n, ast.AugAssign) and isinstance(n.op, ast.Add)]
-        ok = len(adds) == 1 and unparse(adds[0].target) == ae.params[3] and unparse(adds[0].value) == f"event.getStateChange(current_time, {ae.params[3]}[:, 0])[:, None]"
-        if ok:
-            r.ok(ae.qualname, "state += getStateChange(t_event, state) once per fired event", ae.loc(adds[0]))
+        from rules.C15 import apply_events_verdict
+
+        bad, _due, _lp = apply_events_verdict(ae)
+        bad = [b for b in bad if "impulse" in b or "state change" in b or "applied" in b]
+        if bad:
+            r.violation(ae.qualname, "apply:" + ";".join(b[:60] for b in bad), "a fired impulse is not added to the state exactly once: " + "; ".join(bad), ae.loc())
         else:
-            r.violation(ae.qualname, f"apply:{[unparse(a) for a in adds]}", "a fired impulse is not added to the state exactly once", ae.loc())
+            r.ok(ae.qualname, "state += getStateChange(t_event, state) once per fired event (path-wise)", ae.loc())
 
     r.guard(ae.qualname, f2)
 
@@ -1577,21 +1579,12 @@ def rule_r8(chk, p, t):
         # simultaneous events: solve_ivp keeps only the first terminal event of a stop (scipy's handle_events cuts
         # the active list after the first terminal root), so an event reported by the integrator cannot be the
         # only trigger of an application
-        cfg = cfg_of(ae)
-        adds = [n for n in cfg.nodes if n.kind == "stmt" and isinstance(n.ast, ast.AugAssign) and "getStateChange(" in unparse(n.ast.value)]
-        require(len(adds) == 1, "one impulse application expected", ae.node)
-        te = ae.params[1]
-        aliases = set()
-        for lp_ in [n for n in walk_no_nested(ae.node) if isinstance(n, ast.For)]:
-            if isinstance(lp_.iter, ast.Call) and call_name(lp_.iter) == "zip" and isinstance(lp_.target, ast.Tuple):
-                for a_, tg_ in zip(lp_.iter.args, lp_.target.elts):
-                    if unparse(a_) == te and isinstance(tg_, ast.Name):
-                        aliases.add(tg_.id)
-        fired = [n for n in cfg.nodes if n.kind == "cond" and ".size" in unparse(n.ast) and (f"{te}[" in unparse(n.ast) or any(unparse(n.ast).startswith(a_ + ".") for a_ in aliases))]
-        require(fired, "no test of the integrator's reported event times", ae.node)
+        from rules.C15 import apply_events_verdict
+
+        _bad, seen_due, lp = apply_events_verdict(ae)
         cons = ae.qualname + ":simultaneous"
-        if cfg.must_pass(adds[0].id, via_edges=[(fired[0].id, True)]):
-            r.violation(cons, "simultaneous-events-dropped", "an impulse is applied only when the integrator reports its own event time (`t_events[i].size > 0`); solve_ivp reports only the first of several terminal events at one instant, so of two impulses scheduled for the same time one is never applied (nor re-detected after the restart, its event value is already positive)", ae.loc(fired[0].ast))
+        if not seen_due:
+            r.violation(cons, "simultaneous-events-dropped", "an impulse is applied only when the integrator reports its own event time (`t_events[i].size > 0`); solve_ivp reports only the first of several terminal events at one instant, so of two impulses scheduled for the same time one is never applied (nor re-detected after the restart, its event value is already positive)", ae.loc(lp))
         else:
             r.ok(cons, "an event that is due at the stop time is applied even when the integrator did not report it", ae.loc())
 
